@@ -7,7 +7,7 @@ from xdsl.dialects.builtin import IndexType, MemRefType
 from xdsl.dialects.linalg import GenericOp
 from xdsl.dialects.memref import CopyOp
 from xdsl.dialects.scf import ForOp
-from xdsl.ir import Block, Operation, Region, SSAValue
+from xdsl.ir import Block, Operation, Region, SSAValue, Use
 from xdsl.irdl import Operand
 from xdsl.passes import ModulePass
 from xdsl.pattern_rewriter import (
@@ -137,6 +137,19 @@ class ConstructPipeline(RewritePattern):
         )
         # replace uses of index with the index block arg
         index_op.input.replace_uses_with_if(index_op.body.block.args[0], lambda use: use.operation in index_ops)
+
+        # the stages use what the index ops compute through the results of the index op
+        # (also values that are no buffers), such that they follow the index of their stage
+        def is_outside_index_op(use: Use) -> bool:
+            parent: Operation | None = use.operation
+            while parent is not None:
+                if parent is index_op:
+                    return False
+                parent = parent.parent_op()
+            return True
+
+        for index_arg, index_result in zip(index_args, index_op.results):
+            index_arg.replace_uses_with_if(index_result, is_outside_index_op)
 
         # insert index op
         rewriter.insert_op(index_op, InsertPoint.at_end(pipeline_op.body.block))
